@@ -1,6 +1,8 @@
 package sim
 
 import (
+	"crypto/sha512"
+	"encoding/base64"
 	"fmt"
 	"strings"
 
@@ -12,9 +14,17 @@ import (
 
 type c17Oracle struct {
 	extra map[string]string // further plaintexts the harness typed (new passwords), value -> kind
+	// selOwner: every confirm / recover selector ever seen in storage -> the
+	// account that held it (a mail may be delivered after its token was replaced)
+	selOwner map[string]string
+	// everifyAsked: e-mail addresses of the accounts that have asked for a 2FA
+	// authorisation mail so far
+	everifyAsked map[string]bool
 }
 
-func newC17Oracle(w *World) Oracle { return &c17Oracle{extra: map[string]string{}} }
+func newC17Oracle(w *World) Oracle {
+	return &c17Oracle{extra: map[string]string{}, selOwner: map[string]string{}, everifyAsked: map[string]bool{}}
+}
 
 // secretsToScan lists every plaintext of length >= 8 the harness knows.
 func (c *c17Oracle) secretsToScan(w *World) map[string]string {
@@ -171,25 +181,42 @@ func (c *c17Oracle) Check(w *World, o *Obs) []Violation {
 		}
 	}
 	// mail recipients
+	for _, pid := range sortedRowKeys(o.RowsAfter) {
+		row := o.RowsAfter[pid]
+		if row.ConfirmSelector != "" {
+			c.selOwner["confirm/"+row.ConfirmSelector] = pid
+		}
+		if row.RecoverSelector != "" {
+			c.selOwner["recover/"+row.RecoverSelector] = pid
+		}
+	}
+	if st.Kind == "everify_start" && o.IsHTTP {
+		if row := o.RowsBefore[o.uidBefore()]; row != nil {
+			c.everifyAsked[row.Email] = true
+		}
+	}
 	for _, m := range o.Mails {
 		var allowed []string
 		switch m.Kind {
 		case "confirm", "recover":
-			// the account whose token was (re)issued by this step
-			for _, pid := range sortedRowKeys(o.RowsAfter) {
-				before, after := o.RowsBefore[pid], o.RowsAfter[pid]
-				changed := before == nil || before.ConfirmSelector != after.ConfirmSelector || before.RecoverSelector != after.RecoverSelector
-				if changed {
-					allowed = append(allowed, after.Email)
-					if m.Kind == "recover" {
-						allowed = append(allowed, after.Secondary...)
-					}
-				}
+			// the account the token belongs to: the one whose stored selector
+			// is (or was) the hash of the token's first half - a mail may be
+			// delivered some requests after it was produced
+			owner := c.selOwner[m.Kind+"/"+tokenSelector(m.Token)]
+			row := o.RowsAfter[owner]
+			if row == nil {
+				// not the token of any account that exists (any more)
+				w.Stats.Reach["c17_mail_of_unowned_token"]++
+				continue
+			}
+			allowed = append(allowed, row.Email)
+			if m.Kind == "recover" {
+				allowed = append(allowed, row.Secondary...)
 			}
 		case "everify":
-			if row := o.RowsBefore[o.uidBefore()]; row != nil {
-				allowed = append(allowed, row.Email)
-			}
+			// (the token lives in a session, not in storage: any account that
+			// has asked for such a mail may be its addressee)
+			allowed = append(allowed, sortedBoolKeys(c.everifyAsked)...)
 		default:
 			continue
 		}
@@ -215,6 +242,26 @@ func (c *c17Oracle) Check(w *World, o *Obs) []Violation {
 		w.Stats.Reach["c17_log_lines_scanned"] += len(o.Logs)
 	}
 	return out
+}
+
+// tokenSelector is the stored selector of a mailed confirm / recover token as
+// the library documents it: base64(SHA-512(first half of the 64 token bytes)).
+func tokenSelector(token string) string {
+	raw, ok := lenientB64(token)
+	if !ok || len(raw) != 64 {
+		return ""
+	}
+	sum := sha512.Sum512(raw[:32])
+	return base64.StdEncoding.EncodeToString(sum[:])
+}
+
+func sortedBoolKeys(m map[string]bool) []string {
+	ks := make([]string, 0, len(m))
+	for k := range m {
+		ks = append(ks, k)
+	}
+	sortStrings(ks)
+	return ks
 }
 
 func queryEscape(s string) string {
